@@ -4,6 +4,8 @@ CONSTANT MaxTasks = 2
 CONSTANT MaxOps = 3
 CONSTANT MaxSpawn = 3
 CONSTANT FlagUnderMutex = FALSE
+CONSTANT Expiry = FALSE
+CONSTANT FinishedAtomic = TRUE
 CONSTANT AllowSpurious = FALSE
 INVARIANTS TypeOK NoDeadlockB
 CONSTRAINT SpawnBound
